@@ -550,10 +550,13 @@ reg("C37", "exploration",
     "small models) under ASan+UBSan and the release build, with exact-size buffers, error-buffer sizes 0..1000 and a harness-owned error hook, "
     "so that escaped errors, uncaught C++ exceptions, exit() from the library, signals, sanitizer reports, NULL with empty error text and non-NULL "
     "with error text are attributed per input; combined with a schema oracle: documents generated from src/xml/mjcf.schema (parsed by the tree's "
-    "own mjcf_schema.py) - conforming hosts, conforming variants and single-violation mutants of 15 rule kinds over 166 element kinds, each "
-    "labelled by an independent reference validator - and the reader's accept/reject verdict is compared with the label.",
+    "own mjcf_schema.py) AND doc/XMLreference.rst (a document is conforming only if both accept it, a violation is labelled only if both reject "
+    "it) - conforming hosts, conforming variants and single-violation mutants of 15 rule kinds over 166 element kinds plus 258 kinds hosted "
+    "inside frame/replicate chains, each labelled by an independent reference validator - and the reader's accept/reject verdict is compared "
+    "with the label. A load that does not return within the CPU cap on a document that requests no large sizes is re-run alone and reported as "
+    "a runaway loop with the loop owner found by stack sampling.",
     "Tokenizer-level decisions belong to the stand-in XML tokenizer (trusted base). Out-of-memory class events are tolerated only for documents "
-    "that ask for resources (number >= 1000, size suffix, inf/nan); per-input cap 10 s CPU, timeouts counted (inconclusive only). The 'requires' "
-    "rule is never exercised (no instance in the schema). libFuzzer was not used. Open known findings: 28 (process-terminating inputs, "
-    "memory-safety defects while loading, schema/reader disagreements).",
-    "sanitizer-instrumented seeded mutation fuzzing with replayable inputs + schema-derived conformance/violation generation with a reference validator")
+    "whose VALUE tokens ask for resources (number >= 1000, size suffix, inf/nan). The 'requires' rule is never exercised (no instance in the "
+    "schema). libFuzzer was not used. Open known findings (process-terminating inputs, memory-safety defects while loading, schema not enforced "
+    "inside frame/replicate, a non-terminating length-range computation) are relabelled only after a per-case counterfactual load.",
+    "sanitizer-instrumented seeded mutation fuzzing with replayable inputs + schema/documentation-derived conformance/violation generation with a reference validator")
